@@ -1618,6 +1618,7 @@ class ValueString(Value):
                 return ValueDate(
                     datetime.datetime.strptime(self.value, "%Y%m%d")
                 )
+            raise ValueError("unsupported length")
         except ValueError:
             raise CklRuntimeError(
                 ValueString("ERROR"),
